@@ -19,6 +19,12 @@ gk_initnbr <n> <k> <m> <w> | <m*w idxs> | <m*w dist bits>   ->  prios | idxs | f
 (`gk_initnbr` runs the translated `init_from_neighbor_graph` on `make_heap(n, k)`'s arrays, fuel = m + w + k + 4.)
 gk_visited <m> <m bytes> <c>   ->  0|1 (the translated `has_been_visited` answered zero / non-zero)   | oob
 gk_mark <m> <m bytes> <c>      ->  bytes after the translated `mark_visited`                       | oob
+gk_leafupd <m> <w> <N> <dim> | <m*w leaf entries> | <N threshold bits> | <N*dim data bits>   ->  rows of `p q dbits …` separated by `,`   | oob
+(`gk_leafupd` runs the translated `generate_leaf_updates` with `dist` = squared euclidean evaluated in float32 in index order —
+the harness feeds integer-valued data, on which numba's fastmath kernel is exact; fuel = m + 2w + 4; each row starts with the
+placeholder `-1 -1 <inf bits>`.)
+gk_graphupd <m> <w> <N> <dim> | <m*w new candidates> | <m*w old candidates> | <N threshold bits> | <N*dim data bits>   ->  as gk_leafupd   | oob
+(`gk_graphupd` runs the translated `generate_graph_updates`, same `dist`, fuel = m + 2w + 5.)
 (`gk_apply` runs the translated `apply_graph_updates_low_memory` with fuel = T + blocks + updates + k + 8; `starts` cuts the
 update triples into the per-block lists, each of which begins with the `(-1, -1, inf)` placeholder as in `nn_descent`.)
 (`gk_deheap` runs the translated 2-D `deheap_sort` with fuel = n + k + 2 and also checks that the two array pairs it
@@ -89,6 +95,30 @@ def handleGenKApply : Handler := fun toks =>
       some (showFs (D'.toList.flatMap (·.toList)) ++ " | " ++ showInts (I'.toList.flatMap (·.toList))
             ++ " | " ++ showInts (Fl'.toList.flatMap (·.toList)))
     | none => some "oob"
+  | ["gk_leafupd", m, w, n, dim] :: lf :: ths :: [ds] =>
+    if !allNats [m, w, n, dim] || !allInts lf || !allNats ths || !allNats ds then some "bad-op" else
+    let m := pNat m; let w := pNat w; let n := pNat n; let dim := pNat dim
+    if lf.length ≠ m * w || ths.length ≠ n || ds.length ≠ n * dim then some "bad-op" else
+    let sqe : Array F → Array F → F := fun a b =>
+      (List.range (min a.size b.size)).foldl (fun acc i => let d := a[i]! - b[i]!; acc + d * d) (0 : F)
+    match GenK.generate_leaf_updates (m + 2 * w + 4) finf (rowsOf m w (lf.map pInt)) ((ths.map pF).toArray)
+        (rowsOf n dim (ds.map pF)) sqe with
+    | some U => some (" , ".intercalate (U.toList.map (fun row =>
+        " ".intercalate (row.toList.map (fun t => toString t.1 ++ " " ++ toString t.2.1 ++ " " ++ showF t.2.2)))))
+    | none => some "oob"
+  | ["gk_graphupd", m, w, n, dim] :: nw :: od :: ths :: [ds] =>
+    if !allNats [m, w, n, dim] || !allInts nw || !allInts od || !allNats ths || !allNats ds then some "bad-op" else
+    let m := pNat m; let w := pNat w; let n := pNat n; let dim := pNat dim
+    if nw.length ≠ m * w || od.length ≠ m * w || ths.length ≠ n || ds.length ≠ n * dim then some "bad-op" else
+    let sqe : Array F → Array F → F := fun a b =>
+      (List.range (min a.size b.size)).foldl (fun acc i => let d := a[i]! - b[i]!; acc + d * d) (0 : F)
+    match GenK.generate_graph_updates (m + 2 * w + 5) finf (rowsOf m w (nw.map pInt)) (rowsOf m w (od.map pInt))
+        ((ths.map pF).toArray) (rowsOf n dim (ds.map pF)) sqe with
+    | some U => some (" , ".intercalate (U.toList.map (fun row =>
+        " ".intercalate (row.toList.map (fun t => toString t.1 ++ " " ++ toString t.2.1 ++ " " ++ showF t.2.2)))))
+    | none => some "oob"
+  | ("gk_graphupd" :: _) :: _ => some "bad-op"
+  | ("gk_leafupd" :: _) :: _ => some "bad-op"
   | ("gk_initnbr" :: _) :: _ => some "bad-op"
   | ("gk_apply_high" :: _) :: _ => some "bad-op"
   | ("gk_apply" :: _) :: _ => some "bad-op"
